@@ -92,6 +92,35 @@ class Store:
         self.dirty = False
 
 
+def prune_cache(keep=None):
+    """disk is limited: keep only the most recently used files of every cache family"""
+    if keep is None:
+        keep = int(os.environ.get("VERIF_CACHE_KEEP", "2"))
+    if not os.path.isdir(CACHE):
+        return
+    fam = {}
+    for fn in os.listdir(CACHE):
+        p = os.path.join(CACHE, fn)
+        if fn.endswith(".tmp"):
+            try:
+                if time.time() - os.path.getmtime(p) > 3600:
+                    os.remove(p)
+            except OSError:
+                pass
+            continue
+        fam.setdefault(fn.split("-")[0], []).append(p)
+    for ps in fam.values():
+        try:
+            ps.sort(key=os.path.getmtime, reverse=True)
+        except OSError:
+            continue
+        for p in ps[keep:]:
+            try:
+                os.remove(p)
+            except OSError:
+                pass
+
+
 # ---------------------------------------------------------------- real code, in worker processes
 
 def _trace_worker(x):
